@@ -1,5 +1,321 @@
 package main
 
-func runWitnesses(c *Check, def *PropertyDef, repo string, extra map[string]interface{}) {}
-func runSentinels(c *Check, def *PropertyDef, repo string, extra map[string]interface{}) {}
-func cmdMutant(args []string) int { return 0 }
+import (
+	"bytes"
+	"encoding/json"
+	"flag"
+	"fmt"
+	"os"
+	"os/exec"
+	"path/filepath"
+	"sort"
+	"strings"
+	"sync"
+)
+
+// Witnesses are source variants of /repo used to test the checkers both ways:
+// a breaking variant (still compiles, chosen to pass the existing suite) must
+// be reported by the named property check, a benign variant (behaviour
+// preserving refactor) must not be reported.  Variants are analysed through a
+// go/packages overlay: nothing is written into /repo and nothing is executed.
+
+type Witness struct {
+	ID       string   `json:"id"`
+	Kind     string   `json:"kind"` // breaking | benign
+	Props    []string `json:"props"`
+	File     string   `json:"file,omitempty"`
+	Old      string   `json:"old,omitempty"`
+	New      string   `json:"new,omitempty"`
+	Patch    string   `json:"patch,omitempty"` // path relative to /verif
+	Expect   string   `json:"expect_rule,omitempty"`
+	Note     string   `json:"note,omitempty"`
+	Sentinel bool     `json:"sentinel,omitempty"`
+	Missed   []string `json:"known_miss,omitempty"` // properties that are documented not to catch it
+}
+
+func loadWitnesses() ([]Witness, error) {
+	home := verifDir()
+	var ws []Witness
+	b, err := os.ReadFile(filepath.Join(home, "witness", "mutants.json"))
+	if err == nil {
+		if err := json.Unmarshal(b, &ws); err != nil {
+			return nil, fmt.Errorf("witness/mutants.json: %v", err)
+		}
+	}
+	// seeded changes kept from independent sub-agents
+	ents, _ := os.ReadDir(filepath.Join(home, "seeded"))
+	for _, e := range ents {
+		mp := filepath.Join(home, "seeded", e.Name(), "meta.json")
+		mb, err := os.ReadFile(mp)
+		if err != nil {
+			continue
+		}
+		var meta struct {
+			Property   string   `json:"property"`
+			DetectedBy []string `json:"detected_by"`
+		}
+		if json.Unmarshal(mb, &meta) != nil {
+			continue
+		}
+		w := Witness{ID: "seeded/" + e.Name(), Kind: "breaking", Props: meta.DetectedBy,
+			Patch: filepath.Join("seeded", e.Name(), "patch.diff"), Note: "independent seeded change for " + meta.Property}
+		if len(meta.DetectedBy) == 0 {
+			w.Missed = []string{meta.Property}
+		}
+		ws = append(ws, w)
+	}
+	return ws, nil
+}
+
+// overlayFor builds the go/packages overlay of a witness against repo.
+// ok=false means the variant no longer applies to the current tree.
+func overlayFor(w *Witness, repo string) (map[string][]byte, bool, error) {
+	if w.Patch == "" {
+		path := filepath.Join(repo, w.File)
+		b, err := os.ReadFile(path)
+		if err != nil {
+			return nil, false, nil
+		}
+		if strings.Count(string(b), w.Old) != 1 {
+			return nil, false, nil
+		}
+		nb := strings.Replace(string(b), w.Old, w.New, 1)
+		return map[string][]byte{path: []byte(nb)}, true, nil
+	}
+	patch := filepath.Join(verifDir(), w.Patch)
+	pb, err := os.ReadFile(patch)
+	if err != nil {
+		return nil, false, err
+	}
+	var files []string
+	for _, l := range strings.Split(string(pb), "\n") {
+		if strings.HasPrefix(l, "+++ b/") {
+			files = append(files, strings.TrimSpace(strings.TrimPrefix(l, "+++ b/")))
+		}
+	}
+	tmp, err := os.MkdirTemp("", "geoverif-witness-")
+	if err != nil {
+		return nil, false, err
+	}
+	defer os.RemoveAll(tmp)
+	for _, f := range files {
+		src, err := os.ReadFile(filepath.Join(repo, f))
+		if err != nil {
+			continue // new file
+		}
+		os.MkdirAll(filepath.Dir(filepath.Join(tmp, f)), 0o755)
+		os.WriteFile(filepath.Join(tmp, f), src, 0o644)
+	}
+	cmd := exec.Command("git", "apply", "--whitespace=nowarn", patch)
+	cmd.Dir = tmp
+	cmd.Env = append(os.Environ(), "GIT_DIR=/nonexistent", "GIT_CEILING_DIRECTORIES=/")
+	if out, err := cmd.CombinedOutput(); err != nil {
+		_ = out
+		return nil, false, nil
+	}
+	ov := map[string][]byte{}
+	for _, f := range files {
+		nb, err := os.ReadFile(filepath.Join(tmp, f))
+		if err != nil {
+			continue
+		}
+		ov[filepath.Join(repo, f)] = nb
+	}
+	return ov, true, nil
+}
+
+type mutantResult struct {
+	Applied bool  `json:"applied"`
+	Failing []*Ob `json:"failing"`
+	Err     string `json:"err,omitempty"`
+}
+
+// cmdMutant: geoverif mutant --prop Cxx --id ID [--repo DIR]; prints JSON.
+func cmdMutant(args []string) int {
+	fs := flag.NewFlagSet("mutant", flag.ExitOnError)
+	prop := fs.String("prop", "", "")
+	id := fs.String("id", "", "")
+	repo := fs.String("repo", "", "")
+	fs.Parse(args)
+	res := mutantResult{}
+	out := func() int {
+		b, _ := json.Marshal(res)
+		fmt.Println(string(b))
+		return 0
+	}
+	def := properties[*prop]
+	ws, err := loadWitnesses()
+	if def == nil || err != nil {
+		res.Err = fmt.Sprint("bad arguments ", err)
+		return out()
+	}
+	var w *Witness
+	for i := range ws {
+		if ws[i].ID == *id {
+			w = &ws[i]
+		}
+	}
+	if w == nil {
+		res.Err = "unknown witness " + *id
+		return out()
+	}
+	ov, ok, err := overlayFor(w, repoDir(*repo))
+	if err != nil {
+		res.Err = err.Error()
+		return out()
+	}
+	if !ok {
+		return out()
+	}
+	res.Applied = true
+	c, _ := runProperty(def, "quick", repoDir(*repo), "", ov)
+	known, _ := loadKnown(filepath.Join(verifDir(), "known_findings.json"))
+	for _, o := range c.Obs {
+		if o.st != Discharged && (known == nil || known.match(c.Prop, o) == nil) {
+			res.Failing = append(res.Failing, o)
+		}
+	}
+	return out()
+}
+
+func runMutantProc(prop, id, repo string) mutantResult {
+	exe, _ := os.Executable()
+	cmd := exec.Command(exe, "mutant", "--prop", prop, "--id", id, "--repo", repo)
+	cmd.Env = append(os.Environ(), "GEOVERIF_HOME="+verifDir())
+	var stdout bytes.Buffer
+	cmd.Stdout = &stdout
+	err := cmd.Run()
+	var r mutantResult
+	lines := strings.Split(strings.TrimSpace(stdout.String()), "\n")
+	if err != nil || len(lines) == 0 || json.Unmarshal([]byte(lines[len(lines)-1]), &r) != nil {
+		r.Err = fmt.Sprintf("mutant process failed: %v", err)
+	}
+	return r
+}
+
+func applies(w *Witness, prop string) (expected, miss bool) {
+	for _, p := range w.Props {
+		if p == prop {
+			return true, false
+		}
+	}
+	for _, p := range w.Missed {
+		if p == prop {
+			return false, true
+		}
+	}
+	return false, false
+}
+
+func runWitnessSet(c *Check, def *PropertyDef, repo string, extra map[string]interface{}, sentinelOnly bool) {
+	ws, err := loadWitnesses()
+	if err != nil {
+		c.Undecided("witness", "witness-table", "", err.Error())
+		return
+	}
+	base := map[string]bool{}
+	for _, o := range c.Obs {
+		if o.st != Discharged {
+			base[o.Key()] = true
+		}
+	}
+	type job struct {
+		w    *Witness
+		miss bool
+		res  mutantResult
+	}
+	var jobs []*job
+	for i := range ws {
+		w := &ws[i]
+		exp, miss := applies(w, def.ID)
+		if !exp && !miss {
+			continue
+		}
+		if sentinelOnly && !(w.Sentinel && exp) {
+			continue
+		}
+		jobs = append(jobs, &job{w: w, miss: miss})
+	}
+	sem := make(chan struct{}, 8)
+	var wg sync.WaitGroup
+	for _, j := range jobs {
+		wg.Add(1)
+		go func(j *job) {
+			defer wg.Done()
+			sem <- struct{}{}
+			defer func() { <-sem }()
+			j.res = runMutantProc(def.ID, j.w.ID, repo)
+		}(j)
+	}
+	wg.Wait()
+	sort.Slice(jobs, func(i, k int) bool { return jobs[i].w.ID < jobs[k].w.ID })
+	var applied, skipped, detected, silent, missed int
+	var lines []string
+	for _, j := range jobs {
+		w := j.w
+		if j.res.Err != "" {
+			c.Undecided("witness", w.ID, "", "could not analyse the variant: "+j.res.Err)
+			continue
+		}
+		if !j.res.Applied {
+			skipped++
+			lines = append(lines, w.ID+": skipped (no longer applies to the current tree)")
+			continue
+		}
+		applied++
+		var fresh []*Ob
+		for _, o := range j.res.Failing {
+			if !base[o.Key()] {
+				fresh = append(fresh, o)
+			}
+		}
+		hit := ""
+		for _, o := range fresh {
+			if w.Expect == "" || strings.HasPrefix(o.Rule, w.Expect) {
+				hit = o.Rule + " :: " + o.Construct
+				break
+			}
+		}
+		switch {
+		case j.miss:
+			if len(fresh) > 0 {
+				lines = append(lines, w.ID+": documented miss, but reported by "+fresh[0].Rule+" :: "+fresh[0].Construct)
+			} else {
+				missed++
+				lines = append(lines, w.ID+": documented miss (not reachable by the structural rules of this property)")
+			}
+		case w.Kind == "breaking":
+			if hit != "" {
+				detected++
+				c.OK("witness.breaking", w.ID, "", "reported by "+hit)
+				lines = append(lines, w.ID+": reported by "+hit)
+			} else {
+				d := "the breaking variant is not reported"
+				if len(fresh) > 0 {
+					d += " by the expected rule " + w.Expect + " (other reports: " + fresh[0].Rule + " :: " + fresh[0].Construct + ")"
+				}
+				c.Bad("witness.breaking", w.ID, "", d+": the check is blind to a violation it claims to decide")
+			}
+		case w.Kind == "benign":
+			if len(fresh) == 0 {
+				silent++
+				c.OK("witness.benign", w.ID, "", "behaviour-preserving variant stays silent")
+				lines = append(lines, w.ID+": silent (benign)")
+			} else {
+				c.Bad("witness.benign", w.ID, "", "a behaviour-preserving variant is reported ("+fresh[0].Rule+" :: "+fresh[0].Construct+"): the rule raises false alarms")
+			}
+		}
+	}
+	extra["programs"] = applied + 1
+	extra["disagreements_checked"] = applied
+	extra["witness_variants"] = map[string]int{"applied": applied, "skipped": skipped, "breaking_reported": detected, "benign_silent": silent, "documented_misses": missed}
+	extra["witness_results"] = lines
+}
+
+func runWitnesses(c *Check, def *PropertyDef, repo string, extra map[string]interface{}) {
+	runWitnessSet(c, def, repo, extra, false)
+}
+
+func runSentinels(c *Check, def *PropertyDef, repo string, extra map[string]interface{}) {
+	runWitnessSet(c, def, repo, extra, true)
+}
